@@ -203,7 +203,9 @@ class Repo:
                 pkg_trees = {rel: tree for rel, src, tree in parsed if rel.startswith(PKG) and not rel.startswith(PKG + "/resources")}
                 self.moved_back = _canon.move_back(pkg_trees, rows)
                 from .inline import inline_new_members
+                from . import inline as _inl
 
+                _inl.ALL_TREES = pkg_trees
                 self.members_inlined = inline_new_members(pkg_trees)
             except OSError:
                 pass
